@@ -105,6 +105,20 @@ CHECKS["C13"] = dict(
     technique="TLA+ spec (CompactProps) model-checked with TLC; TLC-generated cases replayed into "
               "typhon.collocations.expand/collapse/concat_collocations")
 
+CHECKS["C12"] = dict(
+    text="CompressDesign.tla models compress and decompress as state machines with one action per step and a failing twin "
+         "per I/O step; TLC checks RoundTrip, PassThrough, NoDebris, BodyAtomic, that faults surface, and termination "
+         "(liveness under weak fairness) over all fault placements, and every terminal state is replayed on the real "
+         "context managers for gz/bz2/zip/xz x 5 contents x 3 namings with the fault injected at that very step (module-level "
+         "shutil, tempfile, compressor table and open of typhon.files.utils; exception in the with-body; truncated archive; "
+         "explicit tmpdir / target); stored files must open with the standard library.",
+    ref="DESIGN.md §5 C12",
+    note="Trusted: TLC, CompressDesign (~110 lines), fault injectors. What a failed compress_as leaves in the TARGET is "
+         "deliberately unconstrained (the property only speaks about exceptions inside the block). Zip member naming is "
+         "not part of the property.",
+    technique="TLA+ spec (CompressDesign) model-checked with TLC incl. liveness; every TLC terminal state replayed with "
+              "fault injection into typhon.files.compress/decompress")
+
 NOT_APPLICABLE = {
     "C07": "Every clause concerns floating-point accuracy of sin/cos/arctan2/sqrt compositions or convergence of a "
            "fixed-point iteration over a continuous domain; TLA+/TLC has no reals or transcendental functions and there "
